@@ -35,6 +35,8 @@ def cases(depth):
         "doc": conv10.doc10(depth),
         "fmt": st.sampled_from(["XML", "XML", "JSON", "YAML"]),
         "stringio": st.booleans(),
+        "native": st.booleans(),
+        "stringio_pos": st.sampled_from(["start", "end", "middle"]),
     })
 
 
@@ -139,6 +141,18 @@ def compare_sec(exp, got, where, fails):
             compare_sec(e, g, where + "/" + e["name"], fails)
 
 
+def make_stringio(text, pos):
+    """A StringIO source as callers hand it over: fresh, filled with write(), or partially read."""
+    if pos == "end":
+        sio = io.StringIO()
+        sio.write(text)
+        return sio
+    sio = io.StringIO(text)
+    if pos == "middle":
+        sio.readline()
+    return sio
+
+
 def body(case):
     from ..inv import canonical_uuid
     doc = case["doc"]
@@ -150,9 +164,9 @@ def body(case):
         if fmt == "XML":
             text = conv10.emit_xml(doc)
         elif fmt == "JSON":
-            text = conv10.emit_json(doc)
+            text = conv10.emit_json(doc, case.get("native", False))
         else:
-            text = conv10.emit_yaml(doc)
+            text = conv10.emit_yaml(doc, case.get("native", False))
         exp, drops = conv10.expected(doc, dict_form=(fmt != "XML"))
         src_path = os.path.join(d, "source." + fmt.lower())
         with open(src_path, "w") as fh:
@@ -163,7 +177,7 @@ def body(case):
         if use_stringio:
             # lxml refuses str input that carries an encoding declaration
             text = text.split("?>\n", 1)[1]
-        source = io.StringIO(text) if use_stringio else src_path
+        source = make_stringio(text, case.get("stringio_pos", "start")) if use_stringio else src_path
         classes.append("input:" + ("stringio" if use_stringio else "file"))
         conv = VersionConverter(source)
         try:
@@ -212,7 +226,8 @@ def body(case):
         # write_to_file gives the same document
         out_path = os.path.join(d, "converted.xml")
         try:
-            VersionConverter(io.StringIO(text) if use_stringio else src_path).write_to_file(out_path, fmt)
+            VersionConverter(make_stringio(text, case.get("stringio_pos", "start")) if use_stringio
+                             else src_path).write_to_file(out_path, fmt)
             again = XMLReader(ignore_errors=False, show_warnings=False).from_file(out_path)
             a = snap.normalize(snap.content(loaded), ids=False, trim=True)
             b = snap.normalize(snap.content(again), ids=False, trim=True)
